@@ -267,7 +267,28 @@ def atmosphere(rep, tier, timeout, kinds=None):
             obs.append(oblig.Ob("continuity %s@%d" % (n, k + 1), cond=gt(fabs(left - right), S(1e-9) * fabs(right)),
                                 meta={"pi": -1, "out": n, "family": "AtmosComp %s continuous at table nodes" % n, "kind": "cont"}))
 
+    # the table covers the documented altitude range of the 1976 standard atmosphere as tabulated here: -1000 ft to 150 000 ft
+    # (stated here, not read from the code: the intervals above are whatever the code's table spans)
+    for lab_, got_, want_ in (("first", float(x[0]), -1000.0), ("last", float(x[-1]), 150000.0)):
+        obs.append(oblig.Ob("%s tabulated altitude" % lab_, lhs=const(Fraction(got_)), rhs=const(Fraction(want_)),
+                            meta={"pi": -1, "out": "T", "family": "AtmosComp tabulated altitudes span -1000 ft to 150000 ft", "kind": "range"}))
+
     def replay(ob, env):
+        if ob.meta.get("kind") == "range":
+            bad_ = []
+            for hh in (-999.0, 104000.0, 149000.0):
+                rr = sc.real({"altitude": [hh], "Mach_number": [0.5]})
+                vals_ = [float(rr[n][0]) for n in ("T", "P", "rho", "speed_of_sound", "mu")]
+                if not all(np.isfinite(v_) and v_ > 0 for v_ in vals_):
+                    bad_.append("altitude %.0f ft: T, P, rho, a, mu = %s" % (hh, vals_))
+                elif hh > 100000:
+                    # pressure against the published 1976 value at 104 000 ft / 149 000 ft is not hard-coded: hydrostatic sanity
+                    r2 = sc.real({"altitude": [hh + 1000.0], "Mach_number": [0.5]})
+                    dP = (float(rr["P"][0]) - float(r2["P"][0])) * 6894.757  # psi -> Pa over 1000 ft
+                    w = float(rr["rho"][0]) * 515.3788 * 9.80665 * 304.8  # rho g dh in Pa
+                    if not (0.5 * w < dP < 2.0 * w):
+                        bad_.append("altitude %.0f ft: pressure drops %.4g Pa over the next 1000 ft, the air column weighs %.4g Pa" % (hh, dP, w))
+            return bool(bad_), "; ".join(bad_) or "finite, positive and hydrostatically plausible over the documented range"
         h = env.get("altitude[0]")
         if h is None:
             return None, "no altitude in witness"
